@@ -36,6 +36,9 @@ var c12Queries = []struct{ name, src string }{
 	{"ijson", `@json "<\(.)>"`},
 	{"itext", `"<\(.)>"`},
 	{"rt", `tojson|fromjson`},
+	// operators that produce numbers by EDITING a number (unary minus rewrites the text of a kept literal): what they emit is a JSON number too
+	{"neg", `if type == "number" then -(.) | tojson else "skip" end`},
+	{"negneg", `if type == "number" then -(-(.)) | tojson else "skip" end`},
 }
 
 func c12RunQuery(code *gojq.Code, v any) (res any) {
